@@ -217,6 +217,19 @@ Shape_diamond2 == [root |-> "T",
   uniqfb |-> {"C", "L", "I", "T"},
   order |-> <<"C", "L", "M", "I", "T">>]
 
+Shape_artshare == [root |-> "A",
+  blobs |-> {"E", "LA", "LR"},
+  mans |-> ("A" :> "image") @@ ("R" :> "artifact"),
+  kids |-> ("A" :> <<<<"E", "config", "", FALSE>>, <<"LA", "layer", "", FALSE>>>>) @@
+           ("R" :> <<<<"E", "config", "", FALSE>>, <<"LR", "layer", "", FALSE>>>>) @@
+           ("FB:A" :> <<<<"R", "entry", "", FALSE>>>>),
+  refs |-> {<<"R", "A", "sig">>},
+  dtags |-> {},
+  fbs |-> {<<"FB:A", "A">>},
+  uniq |-> {"LA", "LR", "A", "R"},
+  uniqfb |-> {"LA", "LR", "A", "FB:A"},
+  order |-> <<"E", "LA", "LR", "A", "R">>]
+
 Shape_big == [root |-> "M",
   blobs |-> {"C", "LB", "L2"},
   mans |-> ("M" :> "image"),
@@ -245,5 +258,5 @@ Shape_xref == [root |-> "I",
   uniqfb |-> {"C1", "C2", "I", "FB:M1", "FB:M2"},
   order |-> <<"L1", "C1", "C2", "M1", "M2", "I", "X1", "X2">>]
 
-Shapes == ("img" :> Shape_img) @@ ("dup" :> Shape_dup) @@ ("idx2" :> Shape_idx2) @@ ("nested" :> Shape_nested) @@ ("art" :> Shape_art) @@ ("artidx" :> Shape_artidx) @@ ("bentry" :> Shape_bentry) @@ ("docker" :> Shape_docker) @@ ("schema1" :> Shape_schema1) @@ ("ext" :> Shape_ext) @@ ("empty" :> Shape_empty) @@ ("inline" :> Shape_inline) @@ ("dtag" :> Shape_dtag) @@ ("loop" :> Shape_loop) @@ ("diamond" :> Shape_diamond) @@ ("diamond2" :> Shape_diamond2) @@ ("big" :> Shape_big) @@ ("xref" :> Shape_xref)
+Shapes == ("img" :> Shape_img) @@ ("dup" :> Shape_dup) @@ ("idx2" :> Shape_idx2) @@ ("nested" :> Shape_nested) @@ ("art" :> Shape_art) @@ ("artidx" :> Shape_artidx) @@ ("bentry" :> Shape_bentry) @@ ("docker" :> Shape_docker) @@ ("schema1" :> Shape_schema1) @@ ("ext" :> Shape_ext) @@ ("empty" :> Shape_empty) @@ ("inline" :> Shape_inline) @@ ("dtag" :> Shape_dtag) @@ ("loop" :> Shape_loop) @@ ("diamond" :> Shape_diamond) @@ ("diamond2" :> Shape_diamond2) @@ ("artshare" :> Shape_artshare) @@ ("big" :> Shape_big) @@ ("xref" :> Shape_xref)
 =============================================================================
